@@ -439,8 +439,12 @@ def check(ctx):
         for t_, v_, s_, k_ in iter_stores(gfn.node):
             if isinstance(t_, ast.Name):
                 n_stores[t_.id] = n_stores.get(t_.id, 0) + 1
+        nested_ = {id(n_) for d_ in ast.walk(gfn.node) if isinstance(d_, (ast.FunctionDef, ast.Lambda)) and d_ is not gfn.node for n_ in ast.walk(d_)}
         for st in ast.walk(gfn.node):
-            # locals bound exactly once (anywhere in the routine: the growth of an optional array sits in a branch)
+            # locals bound exactly once (anywhere in the routine: the growth of an optional array sits in a branch; the locals of
+            # a nested helper are that helper's own)
+            if id(st) in nested_:
+                continue
             if isinstance(st, ast.Assign) and len(st.targets) == 1 and isinstance(st.targets[0], ast.Name) and not isinstance(st.value, ast.Lambda) and n_stores.get(st.targets[0].id) == 1:
                 closure[st.targets[0].id] = st.value
         # order of growth vs. counter increment in the record routine
